@@ -809,6 +809,10 @@ def _rep(a, b):
 
 
 WITNESSES = [
+    ("sub-group mask accumulated in place into the first plate's selection vector", "batchie.scoring.gaussian_dbal",
+     _rep("                    plate_subgroup_mask = plate_subgroup_mask | plate.selection_vector", "                    plate_subgroup_mask |= plate.selection_vector"), ["R15"]),
+    ("kernel replaces the caller's NaN padding in place", "batchie.scoring.gaussian_dbal",
+     _rep("    padded_variances = np.nan_to_num(variances, nan=1.0)", "    padded_variances = np.nan_to_num(variances, copy=False, nan=1.0)"), ["R15"]),
     ("padding mask by comparison with NaN", "batchie.scoring.gaussian_dbal", _rep("    mask = ~np.isnan(variances)", "    mask = variances != np.nan"), ["R2"]),
     ("epsilon added to alpha", "batchie.scoring.gaussian_dbal",
      _rep("        + padded_variances[:, idx1, :] * padded_variances[:, idx3, :]\n    )\n    exp_factor", "        + padded_variances[:, idx1, :] * padded_variances[:, idx3, :]\n        + 1e-8\n    )\n    exp_factor"), ["R14"]),
